@@ -150,15 +150,6 @@ def dispatch(t):
         except Exception as e:
             return 'ERR sign %s' % type(e).__name__
         return hx(raw) + ' ' + ('1' if ok else '0')
-    if k == 'vdig':
-        tx = get_tx('api', t[1])
-        if isinstance(tx, str):
-            return tx
-        try:
-            inp = tx.inputs[int(t[2])]
-            return hx(tx.signature_hash(inp.index_n, int(t[3]), inp.witness_type))
-        except Exception:
-            return 'ERR'
     return 'BADREQ'
 
 
